@@ -23,7 +23,8 @@ RULE = (
     "return_defaults(); insert().values([rows]) with 3 rows x all 27 present/None/omitted patterns per default kind "
     "and random 2-4 rows x 3 columns; Update.ordered_values() over all pairs of onupdate kinds x 4 orders and random "
     "3-column single/executemany; INSERT with implicit_returning=False and a pre-executed SQL primary-key default "
-    "evaluating to 0, 5, -3, NULL (and '', False, '0' oracle-only); ORM flushes of 1-4 objects with mixed key sets. non-trivial = some column with a default "
+    "evaluating to 0, 5, -3, NULL (and '', False, '0' oracle-only); ORM bulk UPDATE by primary key (session.execute(update(Entity), mappings) / "
+    "bulk_update_mappings) with explicit None / omitted / value per column; ORM flushes of 1-4 objects with mixed key sets. non-trivial = some column with a default "
     "is omitted by some row and some column is supplied by some row"
 )
 TRUSTED = [
@@ -60,7 +61,7 @@ ANCHORS = [
 ]
 
 NONE, SCALAR, CALLABLE, CTX, SQL, SERVER = range(6)
-OP_CINS, OP_CUPD, OP_OINS, OP_OUPD, OP_MVAL, OP_ORD, OP_PKPRE, OP_PKFALSY = 0, 1, 2, 3, 4, 5, 6, 7
+OP_CINS, OP_CUPD, OP_OINS, OP_OUPD, OP_MVAL, OP_ORD, OP_PKPRE, OP_PKFALSY, OP_OBULK = 0, 1, 2, 3, 4, 5, 6, 7, 8
 
 
 def translate(repo, outdir):
@@ -144,6 +145,19 @@ def gen_cases(rng, tier):
             continue
         for pats in (("none", "omit"), ("none", "value"), ("none", "none")):
             cases.append({"in": [OP_OUPD, mk_cols([k1, k2]), _base_rows(1, 2), [_pset(1, pats)], [1]], "kind": "orm-upd-del"})
+    # ---- ORM bulk UPDATE by primary key: mappings with explicit None / omitted / value per column ----
+    for k1, k2 in itertools.product(kinds, repeat=2):
+        if tier != "thorough" and (k1 + k2) % 2 == 0:
+            continue
+        cols = mk_cols([k1, k2])
+        for pa, pb in (("none", "omit"), ("none", "value"), ("value", "none"), ("omit", "none")):
+            ps = [_pset(1, [pa, pb]), _pset(2, [pb, pa], base=17)]
+            cases.append({"in": [OP_OBULK, cols, _base_rows(2, 2), ps, [(k1 + len(pa)) % 2]], "kind": "orm-bulk-upd"})
+    for _ in range(300 if tier == "thorough" else 50):
+        ks = [rng.choice(kinds) for _ in range(3)]
+        n = rng.randint(1, 4)
+        ps = [_pset(r + 1, [rng.choice(PATTERNS) for _ in range(3)], base=30 + 10 * r) for r in range(n)]
+        cases.append({"in": [OP_OBULK, mk_cols(ks), _base_rows(n, 3), ps, [rng.randint(0, 1)]], "kind": "orm-bulk-upd-random"})
     # ---- insert(t).values([row, row, ...]): per row and column present / None / omitted ----
     mkinds = [NONE, SCALAR, CALLABLE, SQL, SERVER]
     for k1 in mkinds:
@@ -343,7 +357,7 @@ def impl(c):
     from sqlalchemy.orm import Session, registry
 
     op, cols, base, psets, flags = c["in"]
-    update = op in (OP_CUPD, OP_OUPD, OP_ORD)
+    update = op in (OP_CUPD, OP_OUPD, OP_ORD, OP_OBULK)
     pk = None
     if op == OP_PKPRE:
         pk = (sa.Integer, "NULL" if flags[0] == [] else "%d" % flags[0])
@@ -401,7 +415,14 @@ def impl(c):
                 reg.map_imperatively(Obj, t)
                 with Session(conn) as s:
                     objs = []
-                    if op == OP_OINS:
+                    if op == OP_OBULK:
+                        # ORM bulk UPDATE by primary key: every key of a mapping is a value to write
+                        maps = [_pd(p) for p in psets]
+                        if flags[0] == 1:
+                            s.bulk_update_mappings(Obj, maps)
+                        else:
+                            s.execute(sa.update(Obj), maps)
+                    elif op == OP_OINS:
                         for p in psets:
                             objs.append(Obj(**_pd(p)))
                         s.add_all(objs)
@@ -416,7 +437,8 @@ def impl(c):
                                     setattr(o, k, v)
                             objs.append(o)
                     s.flush()
-                    info["orm_state"] = [[getattr(o, n) for n in names] for o in objs]
+                    if objs:
+                        info["orm_state"] = [[getattr(o, n) for n in names] for o in objs]
                 reg.dispose()
             rows = [list(x) for x in conn.exec_driver_sql("select %s from t order by rowid" % ", ".join(names))]
             if op == OP_PKFALSY:
@@ -457,8 +479,8 @@ def impl(c):
 # the property, checked directly
 def _check(inp, obs, info):
     op, cols, base, psets, flags = inp
-    update = op in (OP_CUPD, OP_OUPD, OP_ORD)
-    orm = op in (OP_OINS, OP_OUPD)
+    update = op in (OP_CUPD, OP_OUPD, OP_ORD, OP_OBULK)
+    orm = op in (OP_OINS, OP_OUPD, OP_OBULK)
     many = op in (OP_CINS, OP_CUPD)  # executemany forms whose column keys come from the first set
     keysets = [frozenset(k for k, _ in p) for p in psets]
     kinds = {k: d[0] for k, d in cols}
@@ -526,6 +548,11 @@ def _check(inp, obs, info):
                 if [V2(x) for x in row] != oldrow:
                     problems.append("row %d changed although no attribute changed" % ri)
                 continue
+        if op == OP_OBULK and set(pd) == {0}:
+            # a mapping with only the primary key names nothing to update: no UPDATE, the row stays
+            if [V2(x) for x in row] != oldrow:
+                problems.append("row %d changed although the mapping names no column" % ri)
+            continue
         for ci, (key, d) in enumerate(cols):
             if key == 0:
                 if 0 in pd and pd[0] != [] and V2(row[0]) != pd[0]:
